@@ -91,6 +91,12 @@ let () =
           (* "par_<op>": the answer <op> gave while other threads were calling the library (harness: par_sweep); it
              is judged exactly like <op> *)
           let base = if String.length op > 4 && String.sub op 0 4 = "par_" then String.sub op 4 (String.length op - 4) else op in
+          (* "seq_<op>": <op> was called on the first half of the arguments, then on the second half; the answer is the
+             second call's and is judged like <op> on the second half (a pure function cannot remember the first call) *)
+          let is_seq = String.length base > 4 && String.sub base 0 4 = "seq_" in
+          let base = if is_seq then String.sub base 4 (String.length base - 4) else base in
+          let rec drop n l = if n <= 0 then l else (match l with [] -> [] | _ :: r -> drop (n - 1) r) in
+          let args = if is_seq then drop (List.length args / 2) args else args in
           let opb = bytes_of_raw base in
           let model = raw_of_bytes (Oracle.oracle_model opb args) in
           if only_eval then
